@@ -478,7 +478,10 @@ func (v *VM) execute(context *Context) error {
 			}
 		case OpCallStack:
 			n := int(v.Instructions[v.PC].Args[ArgsNumArgs])
-			f := v.Stack[len(v.Stack)-1].Value.Interface().(Callable)
+			f, ok := v.Stack[len(v.Stack)-1].Value.Interface().(Callable)
+			if !ok {
+				return fmt.Errorf("can't call a value of type %s", v.Stack[len(v.Stack)-1].Value.Type())
+			}
 			v.Stack[len(v.Stack)-1].Value = reflect.ValueOf(n)
 			if args, err = f.CallFromStack(context, n, args); err != nil {
 				return err
